@@ -82,6 +82,8 @@ class C11(RunProp):
             return f"map case could not run: {obs.get('status')} {obs.get('detail', '')}"
         if _c10.combos(m["values"], m["mapOver"], m["mode"]) is None:
             return None
+        if m.get("noSlot") and obs["raised"] == "ValueError" and not obs["calls"]:
+            return None      # the call itself was refused (a limit without a slot): no node ran, no node exception to surface
         singles = obs["singles"]
         own = [s["error"] for s in singles if s["status"] == "failed"]
         if m["mapErr"] == "raise":
@@ -150,7 +152,7 @@ class C11(RunProp):
         ref = refeval.eval_graph(program, len(program) - 1, provided, Env(), failing_dead=True)
         tag = err.split(":", 1)[1]
         all_failed = set(_all_failed(program, provided))
-        if tag not in {pre + f for f in all_failed for pre in ("E_", "Z_", "S_")}:
+        if tag not in {pre + f for f in all_failed for pre in ("E_", "Z_", "S_", "T_", "C_")}:
             return f"surfaced error {err} does not belong to a node that ran and failed ({sorted(all_failed)})"
         if obs["raised"]:
             return None
